@@ -588,6 +588,16 @@ where
         };
         let fn_type = func_data.inner_type.clone();
 
+        // Arguments count can't be more than the declared parameters count
+        if data.parameters.len() > func_data.parameters.len() {
+            self.add_error(error::StateErrorResult::new(
+                error::StateErrorKind::FunctionParameterTypeWrong,
+                func_call_data.to_string(),
+                data.location(),
+            ));
+            return None;
+        }
+
         // Analyse function parameters expressions, check their types
         // and set result to array
         let mut params: Vec<ExpressionResult> = vec![];
